@@ -388,11 +388,11 @@ Qed.
    [first; 1; last]  is not (level -1) and  [first; 0; last]  is.
    Each stop has penalty 10; the objective is travel duration + unplanned. *)
 Definition w_opts : options :=
-  mkOptions false false false false false false false false false false false 0%Z 1%Z 0%Z 1%Z false 0%Z 0%Z 0%Z 0%Z.
+  mkOptions false false false false false false false false false false false 0%Z 1%Z 0%Z 1%Z false 0%Z 0%Z 0%Z 0%Z false.
 Definition w_mat : list (list Z) := [[0;1;1;1];[1;0;1;1];[1;1;0;1];[1;1;1;0]]%Z.
 Definition w_inp : input :=
   mkInput [] [mkIStop [(-1)%Z] 0%Z [] None 10%Z [] None 0%Z 0%Z; mkIStop [1%Z] 0%Z [] None 10%Z [] None 0%Z 0%Z]
-          [mkIVehicle (Some [1%Z]) [0%Z] 0%Z None None None None None [] 0%Z true true 0%Z 0%Z]
+          [mkIVehicle (Some [1%Z]) [0%Z] 0%Z None None None None None [] 0%Z true true 0%Z 0%Z 1%Z 1%Z]
           [mkIUnit [0] []; mkIUnit [1] []]
           w_mat w_mat 1 w_opts [].
 Definition w_gi : ginput := mkGInput w_inp [[0; 1]] [[]].
@@ -409,7 +409,7 @@ Definition w_s1 : state := Eval vm_compute in fst (g_exec_units w_gi w_s0 w_gid 
 
 Lemma w_wf : wf_input w_inp.
 Proof.
-  split; [|split; [|split; [|exact (Forall_nil _)]]].
+  split; [|split; [|split; [|split; [exact (Forall_nil _)|mult_wf]]]].
   - vm_compute. constructor; [simpl; lia|]. constructor; [simpl; tauto|constructor].
   - intros x. vm_compute. lia.
   - intros u Hu. vm_compute in Hu. destruct Hu as [<-|[<-|[]]]; discriminate.
@@ -1282,7 +1282,7 @@ Definition u_mat : list (list Z) := map (fun _ => [0;0;0;0;0;0]%Z) [0;0;0;0;0;0]
 Definition u_inp : input :=
   mkInput [] [mkIStop [0%Z] 0%Z [] None 10%Z [] None 0%Z 0%Z; mkIStop [0%Z] 0%Z [] None 10%Z [] None 0%Z 0%Z;
               mkIStop [0%Z] 0%Z [] None 10%Z [] None 0%Z 0%Z; mkIStop [(-5)%Z] 0%Z [] None 10%Z [] None 0%Z 0%Z]
-          [mkIVehicle (Some [1%Z]) [0%Z] 0%Z None None None None None [] 0%Z true true 0%Z 0%Z]
+          [mkIVehicle (Some [1%Z]) [0%Z] 0%Z None None None None None [] 0%Z true true 0%Z 0%Z 1%Z 1%Z]
           [mkIUnit [0] []; mkIUnit [1; 2] []; mkIUnit [3] []]
           u_mat u_mat 1 w_opts [].
 Definition u_gi : ginput := mkGInput u_inp [[1; 2]] [[]].
@@ -1294,7 +1294,7 @@ Definition u_subs : list submove := [mkSub 1 0 [(1, 5); (2, 0)]; mkSub 2 0 [(3, 
 
 Lemma u_wf : wf_input u_inp.
 Proof.
-  split; [|split; [|split; [|exact (Forall_nil _)]]].
+  split; [|split; [|split; [|split; [exact (Forall_nil _)|mult_wf]]]].
   - vm_compute. repeat (constructor; [simpl; lia|]). constructor.
   - intros x. vm_compute. lia.
   - intros u Hu. vm_compute in Hu. destruct Hu as [<-|[<-|[<-|[]]]]; discriminate.
